@@ -36,3 +36,126 @@ MUTANTS = [
          new="    resp_u, resp_v, resp_a = nigam_and_jennings_response(motion, dt, periods, xi)\n    sas = absmax(resp_a, axis=1)",
          why="reverts fix 0fb940d"),
 ]
+
+# ---------------------------------------------------------------------------
+# window mutants (mid-range clauses): below the threshold the old code runs, above it a subtly wrong variant
+MUTANTS += [
+    dict(id="c03-win-absmax-drops-tail-5000", prop="C03", file="eqsig/sdof.py",
+         old="def absmax(a, axis=None):\n    amax = a.max(axis)\n    amin = a.min(axis)\n",
+         new="def absmax(a, axis=None):\n"
+             "    if axis == 1 and a.shape[1] > 5000:  # blocked reduction for long series\n"
+             "        nb = a.shape[1] // 4096\n"
+             "        blocks = a[:, :nb * 4096].reshape(a.shape[0], nb, 4096)\n"
+             "        amax = blocks.max(axis=2).max(axis=1)\n"
+             "        amin = blocks.min(axis=2).min(axis=1)\n"
+             "        return abs(np.where(-amin > amax, amin, amax))\n"
+             "    amax = a.max(axis)\n    amin = a.min(axis)\n",
+         why="window > 5000 samples: blocked max over time (4096) drops the last partial block"),
+    dict(id="c03-win-pseudo-period-blocks-700", prop="C03", file="eqsig/sdof.py",
+         old="    resp_u, resp_v, resp_a = nigam_and_jennings_response(motion, dt, periods, xi)\n\n    sds = absmax(resp_u, axis=1)\n    svs = w * sds\n",
+         new="    if len(periods) > 700:  # blocks of 256 oscillators keep the response arrays small\n"
+             "        sds = np.zeros(len(periods))\n"
+             "        for i0 in range(0, len(periods) - 255, 256):\n"
+             "            sds[i0:i0 + 256] = absmax(nigam_and_jennings_response(motion, dt, periods[i0:i0 + 256], xi)[0], axis=1)\n"
+             "    else:\n"
+             "        resp_u, resp_v, resp_a = nigam_and_jennings_response(motion, dt, periods, xi)\n"
+             "        sds = absmax(resp_u, axis=1)\n"
+             "    svs = w * sds\n",
+         why="window > 700 periods: period-blocked pseudo spectra drop the last partial block of 256"),
+    dict(id="c03-win-true-float32-3e5", prop="C03", file="eqsig/sdof.py",
+         old="    svs = absmax(resp_v, axis=1)\n    sds = absmax(resp_u, axis=1)\n    sas = np.where(periods < dt * 6, absmax(motion), sas)",
+         new="    if resp_v.size > 300000:  # large response arrays: reduce in single precision\n"
+             "        svs = absmax(resp_v.astype(np.float32), axis=1).astype(float)\n"
+             "    else:\n"
+             "        svs = absmax(resp_v, axis=1)\n"
+             "    sds = absmax(resp_u, axis=1)\n    sas = np.where(periods < dt * 6, absmax(motion), sas)",
+         why="window periods x samples > 3e5: true S_v reduced in float32"),
+    dict(id="c03-win-true-long-record-70000", prop="C03", file="eqsig/sdof.py",
+         old="    sas = absmax(resp_a, axis=1)\n    svs = absmax(resp_v, axis=1)\n    sds = absmax(resp_u, axis=1)\n",
+         new="    if len(motion) > 70000:  # long records: running maxima restarted per window, only the last one kept\n"
+             "        resp_a, resp_v, resp_u = resp_a[:, -65536:], resp_v[:, -65536:], resp_u[:, -65536:]\n"
+             "    sas = absmax(resp_a, axis=1)\n    svs = absmax(resp_v, axis=1)\n    sds = absmax(resp_u, axis=1)\n",
+         why="window > 70000 samples: true spectra lose the head of the record (carry of the running maximum dropped)"),
+    dict(id="c03-win-object-stale-interp-cache", prop="C03", file="eqsig/single.py",
+         old="        if target_dt < self.dt:\n            values_interp, dt_interp = interp_array_to_approx_dt(self.values, self.dt, target_dt, even=False)\n        else:",
+         new="        if target_dt < self.dt:\n"
+             "            cached = getattr(self, '_interp_cache', None)\n"
+             "            if 20000 <= self.npts * len(periods) <= 2000000 and cached is not None and cached[0] == target_dt:\n"
+             "                values_interp, dt_interp = cached[1], cached[2]\n"
+             "            else:\n"
+             "                values_interp, dt_interp = interp_array_to_approx_dt(self.values, self.dt, target_dt, even=False)\n"
+             "                self._interp_cache = (target_dt, values_interp, dt_interp)\n"
+             "        else:",
+         why="window 2e4 <= samples x periods <= 2e6: refined record cached per target step, stale after reset_values"),
+    dict(id="c03-win-object-cap-substeps-1p5e6", prop="C03", file="eqsig/single.py",
+         old="        if target_dt < self.dt:\n            values_interp, dt_interp = interp_array_to_approx_dt(self.values, self.dt, target_dt, even=False)\n        else:",
+         new="        if self.npts * len(periods) * (self.dt / target_dt) > 1.5e6:\n"
+             "            target_dt = max(target_dt, self.dt / 2)\n"
+             "        if target_dt < self.dt:\n            values_interp, dt_interp = interp_array_to_approx_dt(self.values, self.dt, target_dt, even=False)\n        else:",
+         why="window samples x periods x sub-steps > 1.5e6: sub-stepping silently capped at 2"),
+    dict(id="c03-win-energy-series-carry-20000", prop="C03", file="eqsig/sdof.py",
+         old="    if series:\n        return np.cumsum(acc_signal.values * resp_v * acc_signal.dt, axis=1)\n",
+         new="    if series:\n"
+             "        terms = acc_signal.values * resp_v * acc_signal.dt\n"
+             "        if terms.shape[1] > 20000:  # blocked running sum\n"
+             "            out = np.empty_like(terms)\n"
+             "            carry = 0.0\n"
+             "            for b, i0 in enumerate(range(0, terms.shape[1], 8192)):\n"
+             "                blk = np.cumsum(terms[:, i0:i0 + 8192], axis=1)\n"
+             "                out[:, i0:i0 + 8192] = blk + carry\n"
+             "                carry = blk[:, -1:] + (carry if b < 2 else 0.0)\n"
+             "            return out\n"
+             "        return np.cumsum(terms, axis=1)\n",
+         why="window > 20000 samples: blocked cumulative input energy, carry wrong from the third block on"),
+    dict(id="c03-win-uke-float32-100", prop="C03", file="eqsig/sdof.py",
+         old="    kin_energy = 0.5 * resp_v ** 2 * mass\n",
+         new="    kin_energy = 0.5 * (resp_v.astype(np.float32) if len(resp_v) > 100 else resp_v) ** 2 * mass\n",
+         why="window > 100 periods: kinetic energy accumulated in float32"),
+    dict(id="c03-win-asi-block-seams-250", prop="C03", file="eqsig/im.py",
+         old="    return max(0.01*cumulative_trapezoid(abs(psa)))/9.81  # in g*sec",
+         new="    if len(psa) > 250:  # blocked integration\n"
+             "        tot, best = 0.0, 0.0\n"
+             "        for i0 in range(0, len(psa), 128):\n"
+             "            seg = cumulative_trapezoid(abs(psa[i0:i0 + 128]))\n"
+             "            if len(seg):\n"
+             "                best = max(best, tot + max(seg))\n"
+             "                tot += seg[-1]\n"
+             "        return 0.01 * best / 9.81\n"
+             "    return max(0.01*cumulative_trapezoid(abs(psa)))/9.81  # in g*sec",
+         why="window > 250 periods: blocked trapezoid drops the interval at every block seam"),
+    # behaviour-preserving window refactorings: the mid-range clauses must stay quiet
+    dict(id="c03-win-ok-pseudo-period-blocks", prop="C03", file="eqsig/sdof.py", expect="survive",
+         old="    resp_u, resp_v, resp_a = nigam_and_jennings_response(motion, dt, periods, xi)\n\n    sds = absmax(resp_u, axis=1)\n    svs = w * sds\n",
+         new="    if len(periods) > 300:  # blocks of 128 oscillators keep the response arrays small\n"
+             "        sds = np.zeros(len(periods))\n"
+             "        for i0 in range(0, len(periods), 128):\n"
+             "            sds[i0:i0 + 128] = absmax(nigam_and_jennings_response(motion, dt, periods[i0:i0 + 128], xi)[0], axis=1)\n"
+             "    else:\n"
+             "        resp_u, resp_v, resp_a = nigam_and_jennings_response(motion, dt, periods, xi)\n"
+             "        sds = absmax(resp_u, axis=1)\n"
+             "    svs = w * sds\n",
+         why="correct period-blocked pseudo spectra (window > 300 periods)"),
+    dict(id="c03-win-ok-energy-series-blocks", prop="C03", file="eqsig/sdof.py", expect="survive",
+         old="    if series:\n        return np.cumsum(acc_signal.values * resp_v * acc_signal.dt, axis=1)\n",
+         new="    if series:\n"
+             "        terms = acc_signal.values * resp_v * acc_signal.dt\n"
+             "        if terms.shape[1] > 6000:  # blocked running sum\n"
+             "            out = np.empty_like(terms)\n"
+             "            carry = 0.0\n"
+             "            for i0 in range(0, terms.shape[1], 4096):\n"
+             "                out[:, i0:i0 + 4096] = np.cumsum(terms[:, i0:i0 + 4096], axis=1) + carry\n"
+             "                carry = out[:, min(i0 + 4096, terms.shape[1]) - 1][:, None]\n"
+             "            return out\n"
+             "        return np.cumsum(terms, axis=1)\n",
+         why="correct blocked cumulative input energy (window > 6000 samples; rounding differs within the summation bound)"),
+    dict(id="c03-win-ok-absmax-blocked", prop="C03", file="eqsig/sdof.py", expect="survive",
+         old="def absmax(a, axis=None):\n    amax = a.max(axis)\n    amin = a.min(axis)\n",
+         new="def absmax(a, axis=None):\n"
+             "    if axis == 1 and a.shape[1] > 9000:  # blocked reduction for long series\n"
+             "        edges = list(range(0, a.shape[1], 4096))\n"
+             "        amax = np.max([a[:, e:e + 4096].max(axis=1) for e in edges], axis=0)\n"
+             "        amin = np.min([a[:, e:e + 4096].min(axis=1) for e in edges], axis=0)\n"
+             "        return abs(np.where(-amin > amax, amin, amax))\n"
+             "    amax = a.max(axis)\n    amin = a.min(axis)\n",
+         why="correct blocked max over time (window > 9000 samples)"),
+]
